@@ -291,6 +291,10 @@ func (en *Engine) VerifyFunction(fn *ssa.Function, fc *FuncContract, pc *PkgCont
 		for !s.done {
 			extra := en.step(s)
 			work = append(work, extra...)
+			if len(en.pendingForks) > 0 {
+				work = append(work, en.pendingForks...)
+				en.pendingForks = nil
+			}
 		}
 		if s.infeasible {
 			continue
@@ -763,6 +767,15 @@ func (en *Engine) havocLoopTarget(st *State, f *Frame, sc *specCtx, m SpecExpr, 
 				for _, fct := range facts {
 					st.assume(fct)
 				}
+				return
+			}
+		}
+		// a variable that exists but is not carried around this loop is not modified by it
+		if _, ok := sc.locals(id.Name); ok {
+			return
+		}
+		for _, p := range f.fn.Params {
+			if p.Name() == id.Name {
 				return
 			}
 		}
